@@ -139,12 +139,16 @@ func vfC23Run(rec *evid.Rec, ts int, how string) {
 		eff = 65536
 	}
 	applyLive := func() bool { return true }
+	rt := eff // what is written at runtime: for the default case a literal 0 ("give me the default")
+	if ts == 0 {
+		rt = 0
+	}
 	switch how {
 	case "UpdateTuningOptions":
-		srv.nfs.UpdateTuningOptions(func(t *TuningOptions) { t.TransferSize = eff })
+		srv.nfs.UpdateTuningOptions(func(t *TuningOptions) { t.TransferSize = rt })
 	case "UpdateExportOptions":
 		eo := srv.nfs.GetExportOptions()
-		eo.TransferSize = eff
+		eo.TransferSize = rt
 		if err := srv.nfs.UpdateExportOptions(eo); err != nil {
 			rec.Infra(err.Error())
 			return
